@@ -72,7 +72,10 @@ def _finish(sp, prog, spec, outs, ins, astar, old, extra):
         return dict(kind="autojac_backward", spec=spec_json(spec), outputs=outs, inputs=ins, jac=jac_values(model, prog),
                     v=cex_values(model, v=[o._flat() for o in astar.outs])["v"], old={k: (cex_values(model, g=g)["g"] if g is not None else None) for k, g in old.items()}, **extra)
     if untouched is None:
-        return [a if isinstance(a, Ob) else Ob("?", a) for a in alts]
+        for a in alts:
+            if isinstance(a, Ob) and a.cex is None:
+                a.cex = cex
+        return [a if isinstance(a, Ob) else Ob("?", a, cex) for a in alts]
     obs = [Ob("jacobian_rows_columns_and_grad_slices", z3.Or(*alts), cex)]
     for n in untouched:
         t = prog[n]
